@@ -20,6 +20,9 @@ SEQ     every packing with compression (replay and record alike) is preceded, on
         a longer question name, then a 64-octet label / a 256-octet name / a 300-octet string, or RCODE 16 without OPT -- so that
         state leaking from a failed Pack into the next one (pooled compression maps) shows in the judged octets; every distinct
         compressed form of a message is judged.
+BUF     for every message PackBuffer (Compress = true) is also driven with caller buffers of every size from the compressed length - 2
+        to the uncompressed length + 2 (sampled beyond 96 sizes: the first 72, a stride, the last 9): the result must be Pack()'s octets
+        (the ones TLC judges); an error is tolerated only below the compressed length.  Keys compress/packbuffer-error|differs-from-pack|panic:<mode>.
 TV      harness `compress record`: random messages from the record zoo (about 85 types x 16 owner families, mixed case, escapes),
         small (1-12 records: also walked by TLC itself, walker cross-check) and big (150-600 records, about half beyond 16384 octets even compressed):
         part streams -> Trace_Compress (JudgeStreams with MaxOff = 16384).  Informational: len(bytesC) against PackImpl over the plan
